@@ -14,7 +14,7 @@ import (
 func init() {
 	Register(&PropDef{
 		ID: "C11", QuickRuns: 1600, RaceRuns: 480, Level: "exploration", Race: true,
-		Rule: "one run = 2-8 associations on one datapath (BESS or UP4, drawn) working in rounds: in every round each association sends one valid request for one of its own sessions - establishment (UE address given or UP-allocated, F-TEID given or CHOOSE, 0-2 QERs, first PDR pair match-all or carrying one of three application filters shared by the whole run, downlink FAR towards one of three gNBs shared by the whole run), FAR update (new tunnel / buffer / drop; on UP4 only those that stay off the listed findings), other modifications inside the supported envelope (BESS), deletion - all at the same instant or with drawn pacing (0-200 us); the UE pool is large or so small (/28, /29) that a released address is handed out again at once (establishments whose acceptance then depends on the order within the round may be refused); in one round in three the only user of an application filter and gNB is deleted by its association while another association establishes the next user of the same filter and gNB; datapath RPC latency jitter 0-2 ms and occasional slow writes (1.5 / 5 ms) let the writes of two handlers overtake each other; the agent's one-goroutine-per-association handlers, the per-rule goroutines of the BESS plug-in and the heartbeat monitors are interleaved by the token scheduler at statement level (run-to-block / random / PCT, scheduling points before socket writes). One run in eight is the directed "late completion" scenario: association A's establishment has one BESS call slower than the plug-in's 1 s wait, association B's establishment is aimed at the instant that wait ends (join timer, context deadline and B's datagram at one instant), RPC latencies differ by up to 2 ms, the daemon does not apply a call cancelled before it got to it; A's session is deleted and B's accepted session must be installed completely. One round in eight is sent one request at a time (serial control: a rejection there is a generator matter, counted, not a finding). Oracles: (a) every request is answered once, and - concurrent rounds - accepted, as in every one-at-a-time ordering of these order-independent requests; (b) at the quiescent point after each round the datapath (simulated BESS modules / P4Runtime switch) equals the reference image of the union of all live sessions (C03 / C04 oracle, incl. tunnel_peers / applications 'present iff used'), id bijections hold (C15 oracle); (c) after a final concurrent deletion of everything: tables empty, UE pool and TEID generator empty, UP4 id pools back to their start sizes and bookkeeping maps empty (white-box bridge), session store empty, gauge 0; (d) no agent task panics, the agent stays alive; (e) race build: the same scenarios run under the race detector; token hand-over between tasks happens inside runtime.RaceDisable sections and therefore creates no happens-before edge, so two agent goroutines touching a plain map / slice / field without a lock of their own are reported although only one of them runs at a time; reports whose both accesses are agent code (not harness probes) are violations, signature = the two accessing functions.",
+		Rule: "one run = 2-8 associations on one datapath (BESS or UP4, drawn) working in rounds: in every round each association sends one valid request for one of its own sessions - establishment (UE address given or UP-allocated, F-TEID given or CHOOSE, 0-2 QERs, first PDR pair match-all or carrying one of three application filters shared by the whole run, downlink FAR towards one of three gNBs shared by the whole run), FAR update (new tunnel / buffer / drop; on UP4 only those that stay off the listed findings), other modifications inside the supported envelope (BESS), deletion - all at the same instant or with drawn pacing (0-200 us); the UE pool is large or so small (/28, /29) that a released address is handed out again at once (establishments whose acceptance then depends on the order within the round may be refused); in one round in three the only user of an application filter and gNB is deleted by its association while another association establishes the next user of the same filter and gNB; datapath RPC latency jitter 0-2 ms and occasional slow writes (1.5 / 5 ms) let the writes of two handlers overtake each other; the agent's one-goroutine-per-association handlers, the per-rule goroutines of the BESS plug-in and the heartbeat monitors are interleaved by the token scheduler at statement level (run-to-block / random / PCT, scheduling points before socket writes). One run in eight is the directed late-completion scenario: association A's establishment has one BESS call slower than the plug-in's 1 s wait, association B's establishment is aimed at the instant that wait ends (join timer, context deadline and B's datagram at one instant), RPC latencies differ by up to 2 ms, the daemon does not apply a call cancelled before it got to it; A's session is deleted and B's accepted session must be installed completely. One round in eight is sent one request at a time (serial control: a rejection there is a generator matter, counted, not a finding). Oracles: (a) every request is answered once, and - concurrent rounds - accepted, as in every one-at-a-time ordering of these order-independent requests; (b) at the quiescent point after each round the datapath (simulated BESS modules / P4Runtime switch) equals the reference image of the union of all live sessions (C03 / C04 oracle, incl. tunnel_peers / applications 'present iff used'), id bijections hold (C15 oracle); (c) after a final concurrent deletion of everything: tables empty, UE pool and TEID generator empty, UP4 id pools back to their start sizes and bookkeeping maps empty (white-box bridge), session store empty, gauge 0; (d) no agent task panics, the agent stays alive; (e) race build: the same scenarios run under the race detector; token hand-over between tasks happens inside runtime.RaceDisable sections and therefore creates no happens-before edge, so two agent goroutines touching a plain map / slice / field without a lock of their own are reported although only one of them runs at a time; reports whose both accesses are agent code (not harness probes) are violations, signature = the two accessing functions.",
 		Assume: []string{"requests of different associations are order-independent by construction (distinct UE addresses / TEIDs, pools larger than the load), so 'some one-at-a-time ordering' fixes each response's cause and the final image uniquely",
 			"race reports with a harness probe (bridge file, simulator goroutine) on either side are artefacts of reading white-box state at quiescence and are dropped (counted)"},
 		Real: CommonReal, Simulated: CommonSim,
